@@ -115,6 +115,10 @@ type Ctx struct {
 	prog []byte // mmap'ed progress page
 }
 
+// quickScale multiplies the quick-tier size of the sampled phases of the
+// checks whose cases are cheap, so that every quick run takes 10-30 s.
+var quickScale = map[string]uint64{"C02": 2, "C03": 2, "C06": 4, "C07": 2, "C09": 2, "C10": 5, "C11": 3, "C12": 2, "C13": 4, "C14": 5, "C16": 3, "C17": 4}
+
 const maxDistinct = 4 << 20
 const progSize = 8192
 
@@ -320,6 +324,16 @@ func RunWorker(ck *Check, tier string, seed uint64, shard, shards int, fromPhase
 	for pi := fromPhase; pi < len(ck.Phases); pi++ {
 		ph := &ck.Phases[pi]
 		n := ph.N(tier)
+		if k := quickScale[ck.ID]; tier == "quick" && k > 1 {
+			// phases whose size grows with the tier run k times their base
+			// quick size (fixed-size phases are enumerations)
+			if full := ph.N("thorough"); full > n {
+				n *= k
+				if n > full {
+					n = full
+				}
+			}
+		}
 		start := uint64(0)
 		if pi == fromPhase {
 			start = fromIdx
